@@ -38,6 +38,7 @@ def random_case(rng, coarse=None, max_nodes=10, prefer=()):
     legacy = rng.random() < 0.6
     used = sorted({e['name'] for e, _, _, _ in G._flat(ast)})
     frag = '{' + ','.join('#%s=%s' % (nm, lib[nm]) for nm in names) + '}'
-    return dict(kind='ambig', string=G.to_string(ast) + '.' + frag, coarse=coarse, legacy=legacy,
-                features=sorted({'ambig_coarse' if coarse else 'ambig_atomistic', 'legacy_on' if legacy else 'legacy_off'}
+    ctor = rng.choice(['string', 'string', 'string', 'from_graph', 'from_fragment_dicts'])
+    return dict(kind='ambig', string=G.to_string(ast) + '.' + frag, coarse=coarse, legacy=legacy, ctor=ctor,
+                features=sorted({'ambig_coarse' if coarse else 'ambig_atomistic', 'legacy_on' if legacy else 'legacy_off', 'ctor_' + ctor}
                                 | {'unit_' + u for u in used}))
